@@ -1,3 +1,4 @@
+import os
 """Registry: which harnesses decide which property, with their bounds.
 
 REG[<property id>] = {
@@ -250,7 +251,7 @@ REG["C15"]["assumptions"] += ["frame_preview and the time-index read are replace
 REG["C27"] = dict(
     cbmc_args=MEMCMP,
     harnesses={
-        "c27_temporal_2cards": H("experimental", module="memories_track", enc=["MemoriesTrack::add_card", "get_at_time", "get_current", "get_cards", "SlotIndex::insert", "SlotIndex::get", "MemoryCard::effective_timestamp", "is_retracted"],
+        "c27_temporal_2cards": H("experimental", module="memories_track", cbmc=SIMD_BITMASK, enc=["MemoriesTrack::add_card", "get_at_time", "get_current", "get_cards", "SlotIndex::insert", "SlotIndex::get", "MemoryCard::effective_timestamp", "is_retracted"],
                                  sym="2 cards of one (entity, slot): event date, document date (Option<i64>), created_at, version relation (4 kinds); query time t (any i64)", bound="2 cards"),
         "c27_temporal_3cards": H("thorough", module="memories_track", enc=["MemoriesTrack::get_at_time", "get_current"], sym="3 cards as above, ties allowed", bound="3 cards"),
     },
@@ -486,7 +487,8 @@ NOT_APPLICABLE.update({
 })
 NOT_APPLICABLE = {k: v for k, v in NOT_APPLICABLE.items() if v}
 
-del REG["C27"]  # not claimed (see NOT_APPLICABLE); the harness stays in harness/memories_track.rs
+if not os.environ.get("VERIF_TRY_C27"):
+    del REG["C27"]  # not claimed (see NOT_APPLICABLE); the harness stays in harness/memories_track.rs
 
 REG["C18"] = dict(
     cbmc_args=MEMCMP,
